@@ -791,16 +791,33 @@ def replay_files(cases, consts, expect):
 
 
 MAX_ARTEFACTS = 80
+_pending = {}
 
 
 def report(ctx, sig, desc, mk_files):
-    """ctx.violation with the replay artefact built only for the first case of a signature (and only for the first
-    MAX_ARTEFACTS signatures: a tree with a systematic defect produces hundreds of signatures, 60 KB each)."""
-    if sig in ctx.violations:
-        return ctx.violation(sig, desc)
-    if len(ctx.violations) >= MAX_ARTEFACTS:
-        return ctx.violation(sig, desc + " [no artefact written: more than %d signatures in this run]" % MAX_ARTEFACTS)
-    return ctx.violation(sig, desc, files=mk_files(), replay=REPLAY)
+    """Collect a violating case; flush_reports() hands them to ctx.violation in signature order."""
+    if sig in _pending:
+        _pending[sig][2] += 1
+    else:
+        _pending[sig] = [desc, mk_files, 1]
+
+
+def flush_reports(ctx):
+    """The replay artefact (about 60 KB) is built for the first case of a signature, and only for the first MAX_ARTEFACTS
+    signatures in sorted order - the ones ctx.finish() re-runs and prints; a tree with a systematic defect produces
+    hundreds of signatures."""
+    n = 0
+    for sig in sorted(_pending):
+        desc, mk, count = _pending[sig]
+        if n < MAX_ARTEFACTS:
+            new = ctx.violation(sig, desc, files=mk(), replay=REPLAY)
+        else:
+            new = ctx.violation(sig, desc + " [no artefact written: more than %d signatures in this run]" % MAX_ARTEFACTS)
+        if new:
+            n += 1
+        for _ in range(count - 1):
+            ctx.violation(sig, desc)
+    _pending.clear()
 
 
 def sig_class(cid):
@@ -837,6 +854,7 @@ def conv_requirements():
 
 
 def run(ctx):
+    _pending.clear()
     cases = gen_cases(ctx.tier)
     consts = const_rows(gen_consts())
     ids = [c.cid for c in cases] + [k[0] for k in consts]
@@ -898,14 +916,14 @@ def run(ctx):
                     got = TN[int(mm.group(1))] if 0 <= int(mm.group(1)) < NT else mm.group(1)
                     report(ctx, "C02|type|%s|got=%s,want=%s" % (c.cid, got, TN[int(mm.group(3))]),
                            "type of %s is %s (sizeof %s), C11 says %s" % (text(c.tree), got, mm.group(2), TN[int(mm.group(3))]),
-                           lambda: replay_files([c], [], "T 0 "))
+                           lambda c=c: replay_files([c], [], "T 0 "))
                 elif line.startswith("V "):
                     i = int(f[1]); c = bc[i]
                     key, cnt, ex = f[2], f[3], f[4]
                     outcomes.add(key)
                     fn = (c.body or "FN(R_%s) = %s;" % (TN[c.rt], text(c.tree)))
                     report(ctx, "C02|value|%s|%s" % (sig_class(c.cid), key), "%s { %s }: %s (%s failing operand tuples in this class)" % (c.cid, fn, ex, cnt),
-                           lambda: replay_files([c], [], "V 0 %s " % key))
+                           lambda c=c, key=key: replay_files([c], [], "V 0 %s " % key))
                 elif line.startswith("KT ") or line.startswith("KV "):
                     i = int(f[1]); k = bk[i]
                     kind = k[0].split("/")[1]          # dec | hex
@@ -918,7 +936,8 @@ def run(ctx):
                     else:
                         sig = "C02|const|%s/%s/%s|%s|%s|%s" % (kind, TN[k[2]], suf, rng, f[2], f[3]); exp = "KV 0 %s %s " % (f[2], f[3])
                     report(ctx, sig, "constant %s (%s): %s" % (k[1] if len(k[1]) < 90 else k[1][:40] + "..." + k[1][-40:], TN[k[2]], line),
-                           lambda: replay_files([], [k], exp))
+                           lambda k=k, exp=exp: replay_files([], [k], exp))
+    flush_reports(ctx)
     if odis:
         raise core.HarnessError("model and gcc disagree on %d tuples (see evidence samples) - the model must be corrected" % odis)
     # coverage assertion over the conversion table, derived from type pairs
